@@ -140,6 +140,14 @@ def faults():
     for col, key in (("cat", "a"), ("other", "x"), ("other", "y")):
         add("category-with-placeholder", {"PLACEHOLDER_INVALID"}, set_at(B, (col, "HED", key), "Label/#"))
         add("category-with-placeholder", {"PLACEHOLDER_INVALID"}, set_at(B, (col, "HED", key), "(Red, Label/#)"))
+    # 3b / 4b the same faults in an entry that also holds a definition (definitions themselves are not counted)
+    for d in ("(Definition/Dd, (Red))", "(Definition/Dv/#, (Label/#))"):
+        add("value-column-two-placeholders", {"PLACEHOLDER_INVALID"}, set_at(B, ("val", "HED"), d + ", Label/#, Description/#"))
+        add("value-column-two-placeholders", {"PLACEHOLDER_INVALID"}, set_at(B, ("val", "HED"), "Label/#, (Description/#), " + d))
+        add("value-column-no-placeholder", {"PLACEHOLDER_INVALID"} | TYPE_CODES, set_at(B, ("val", "HED"), d + ", Red"))
+        for col, key in (("cat", "a"), ("other", "y")):
+            add("category-with-placeholder", {"PLACEHOLDER_INVALID"}, set_at(B, (col, "HED", key), d + ", Label/#"))
+            add("category-with-placeholder", {"PLACEHOLDER_INVALID"}, set_at(B, (col, "HED", key), "(Red, Label/#), " + d))
     # 5 HED used as a column name
     for entry in ({"HED": "Label/#"}, {"HED": {"a": "Red"}}, {"Description": "x"}, "Label/#", "Red", None, 12, True, 1.5, "",
                   [], ["Red"], {}, {"Levels": {"a": "x"}}):
@@ -189,6 +197,11 @@ def valid_sidecars():
     yield set_at(BASE, ("other", "HED", "x"), "{val}, Green")
     yield {"val": BASE["val"]}
     yield {"ign": BASE["ign"]}
+    # a column of definitions (with and without a value), used by the other columns
+    defs = {"HED": {"d1": "(Definition/Dd, (Red))", "d2": "(Definition/Dv/#, (Label/#))", "d3": "(Definition/De)"}}
+    yield dict(BASE, defs=defs)
+    yield dict(set_at(set_at(BASE, ("val", "HED"), "Def/Dv/#"), ("cat", "HED", "a"), "Def/Dd, (Def/Dv/x, Red)"), defs=defs)
+    yield dict([("defs", defs)] + list(BASE.items()))
     yield {}
 
 
